@@ -9,6 +9,8 @@ import (
 	"fmt"
 	"go/parser"
 	"go/token"
+	"os"
+	"path/filepath"
 	"sort"
 	"strconv"
 	"strings"
@@ -311,6 +313,19 @@ func ReplayHistory(tw *TraceWriter, id int, h []Action) {
 		case "Render":
 			rendering = true
 			rA := renderFile(fA)
+			if id%4 == 2 && h[0].Variant == nil {
+				// the other way to the same output: the File has just been rendered, now it is SAVED and the saved file is the
+				// observation (Save must give what Render gives, whatever was rendered with the File before)
+				rA = safely(func() ([]byte, error) {
+					tmp := filepath.Join(os.TempDir(), fmt.Sprintf("verif-save-%d-%d.go", os.Getpid(), id))
+					defer os.Remove(tmp)
+					if err := fA.Save(tmp); err != nil {
+						return nil, err
+					}
+					return os.ReadFile(tmp)
+				})
+				tw.Stats["observations_through_Save"]++
+			}
 			stop := watchDicts()
 			rB := renderFile(fB)
 			fixupDicts(bB, stop()) // the body as the NoFormat twin's render visited it (Dict first-pass orders)
